@@ -17,6 +17,8 @@ import time
 
 VERIF = os.path.dirname(os.path.dirname(os.path.abspath(__file__)))
 REPO = os.environ.get("VERIF_REPO", "/repo")
+# where evidence/ and replays/ are written: /verif, unless a seeded-change test redirects them ($VERIF_OUT)
+OUT = os.environ.get("VERIF_OUT") or None
 LEAN_DIR = os.path.join(VERIF, "lean")
 SHIMS = os.path.join(VERIF, ".cache", "shims")
 GOENV = {
@@ -138,7 +140,7 @@ class WorkCopy:
     def run_harness(self, args, input_text=None, timeout=600, binary=None, extra_env=None):
         env = dict(self.env)
         env.setdefault("GOMEMLIMIT", "6GiB")
-        env.setdefault("VERIF_HANGDIR", os.path.join(VERIF, "replays", "hangs"))
+        env.setdefault("VERIF_HANGDIR", os.path.join(OUT or VERIF, "replays", "hangs"))
         env.setdefault("VERIF_CASE_LIMIT", "240")
         if extra_env:
             env.update(extra_env)
@@ -352,7 +354,7 @@ class Check:
         self.known = []
         self._distinct = set()
         self.replay_n = 0
-        rd = os.path.join(VERIF, "replays")
+        rd = os.path.join(OUT or VERIF, "replays")
         if os.path.isdir(rd):
             for f in os.listdir(rd):
                 if f.startswith("%s-%d-" % (pid, seed)):
@@ -370,10 +372,10 @@ class Check:
 
     # -- replay / verdict
     def replay_file(self, kind, body):
-        os.makedirs(os.path.join(VERIF, "replays"), exist_ok=True)
+        os.makedirs(os.path.join(OUT or VERIF, "replays"), exist_ok=True)
         self.replay_n += 1
         path = os.path.join(
-            VERIF, "replays", "%s-%d-%d.json" % (self.pid, self.seed, self.replay_n)
+            OUT or VERIF, "replays", "%s-%d-%d.json" % (self.pid, self.seed, self.replay_n)
         )
         d = {"property": self.pid, "kind": kind, "seed": self.seed, "tier": self.tier}
         d.update(body)
@@ -407,8 +409,8 @@ class Check:
             "wall_s": round(time.time() - self.t0, 2),
             "violations": len(self.violations),
         }
-        os.makedirs(os.path.join(VERIF, "evidence"), exist_ok=True)
-        with open(os.path.join(VERIF, "evidence", self.pid + ".json"), "w") as f:
+        os.makedirs(os.path.join(OUT or VERIF, "evidence"), exist_ok=True)
+        with open(os.path.join(OUT or VERIF, "evidence", self.pid + ".json"), "w") as f:
             json.dump(ev, f, indent=1, default=str)
         # every open finding listed for this property is printed on every run (the file is never
         # written here); whether this run reproduced it is stated, since some are timing-dependent
